@@ -20,6 +20,26 @@ func VerifParseMakefile(content string) (PackageDTO, bool, error) {
 	return newMakefileParser(bufio.NewScanner(strings.NewReader(content))).parse()
 }
 
+// verifScanner: max <= 0 is the production scanner (bufio.MaxScanTokenSize); a positive max only
+// lowers bufio's token limit (third-party parameter), so that the token-too-long boundary of the
+// parsers can be compared with the model on short lines.
+func verifScanner(content string, max int) *bufio.Scanner {
+	sc := bufio.NewScanner(strings.NewReader(content))
+	if max > 0 {
+		sc.Buffer(make([]byte, 0, 16), max)
+	}
+	return sc
+}
+
+// VerifParseMakefileMax / VerifParseScriptMax: the same parsers over a scanner with token limit max
+func VerifParseMakefileMax(content string, max int) (PackageDTO, bool, error) {
+	return newMakefileParser(verifScanner(content, max)).parse()
+}
+
+func VerifParseScriptMax(file, content string, max int) (PackageDTO, bool, error) {
+	return newScriptParser(verifScanner(content, max), file).parse()
+}
+
 // VerifParseScript = newScriptParser(scanner over content, file).parse()
 func VerifParseScript(file, content string) (PackageDTO, bool, error) {
 	return newScriptParser(bufio.NewScanner(strings.NewReader(content)), file).parse()
